@@ -105,6 +105,15 @@ CHECKS = {
         "Cases with start() during an in-progress cancellation are not judged beyond that point; bounded liveness (60 s virtual horizon).",
         "DESIGN.md section 3 C10",
     ),
+    "C11": (
+        "Hypothesis PBT over event histories of a real PowerManagingActor on a virtual clock: each request checked against the actor's own published reports and the latest bounds",
+        "Histories of regular/operating-point proposals, bounds updates, distribution results and expiry are applied to the real "
+        "actor (bounds stream injected by the harness); after every event and a quiescence barrier the requests sent are compared "
+        "with the sum of the two reported targets and with the latest inclusion bounds; after a bounds update the standing "
+        "request must still match. Exploration level.",
+        "new_battery_pool patched inside the actor's module to obtain the bounds stream; distinct priorities over all actors.",
+        "DESIGN.md section 3 C11",
+    ),
     "C12": (
         "Hypothesis PBT over generated component graphs with ground-truth physics: every generated formula engine is run for real and compared with the constructed totals",
         "Random valid trees (repository validation decides validity) with device powers on separate decimal scales; each of the 7 "
